@@ -41,8 +41,11 @@ def one(st, src, rng, res, info):
         info = dict(info, junk=rng.randrange(1 << 30))
         r, out = cc.run_fast(st, variant, src, cap, p, res, info)
         if variant == "ext":
-            info2 = dict(info, junk=info["junk"] + 1)
-            r2, out2 = cc.run_fast(st, variant, src, cap, p, res, info2, check_model=False)
+            for dj in (1, 2, 3):
+                info2 = dict(info, junk=info["junk"] + dj)
+                r2, out2 = cc.run_fast(st, variant, src, cap, p, res, info2, check_model=False)
+                if (r2, out2) != (r, out):
+                    break
             if (r2, out2) != (r, out):
                 res["fails"].append({"status": "prop_fail", "what": "LZ4_compress_fast_extState output depends on prior state bytes",
                                      "detail": dict(info, cap=cap, accel=p, n=n)})
@@ -52,7 +55,10 @@ def one(st, src, rng, res, info):
         info = dict(info, junk=rng.randrange(1 << 30))
         r, out = cc.run_hc(st, variant, src, cap, p, res, info)
         if variant == "hc_ext":
-            r2, out2 = cc.run_hc(st, variant, src, cap, p, res, dict(info, junk=info["junk"] + 1))
+            for dj in (1, 2, 3):          # the four prior-state patterns of blk.junk_state
+                r2, out2 = cc.run_hc(st, variant, src, cap, p, res, dict(info, junk=info["junk"] + dj))
+                if (r2, out2) != (r, out):
+                    break
             if (r2, out2) != (r, out):
                 res["fails"].append({"status": "prop_fail", "what": "LZ4_compress_HC_extStateHC output depends on prior state bytes",
                                      "detail": dict(info, cap=cap, level=p, n=n)})
@@ -69,6 +75,25 @@ def one(st, src, rng, res, info):
                                  "detail": dict(info, variant=variant, p=p, cap=cap, n=n, src=src.hex() if n <= 400 else "len=%d" % n, out=out.hex() if r <= 400 else "len=%d" % r)})
         if blk.nontrivial_block(out):
             res["keys"].add(cc.key_of(src, variant, p, cap))
+
+def far(st, src, rng, res, info):
+    """window-edge inputs (> 64 KB): every HC parser (mid, hash-chain, optimal, with and without favorDecSpeed) and the fast path"""
+    n = len(src); b = cc.bound(n)
+    for variant, p in [("default", 1)] + [("hc", l) for l in (1, 2, 4, 9, 10, 11)] + [("hc_fr_fav", 12)]:
+        if variant == "default":
+            r, out = cc.run_fast(st, variant, src, b, p, res, info)
+        else:
+            r, out = cc.run_hc(st, variant, src, b, p, res, dict(info, junk=rng.randrange(1 << 30)))
+        res["stats"]["variant_" + variant] += 1
+        if r <= 0 or r > b:
+            res["fails"].append({"status": "prop_fail", "what": "%s(%d) returned %d at bound capacity" % (variant, p, r), "detail": dict(info, n=n)})
+            continue
+        err = blk.decode_checks(st, src, out, caps=[n])
+        if err:
+            res["fails"].append({"status": "prop_fail", "what": "round trip failed (%s, parameter %d): %s" % (variant, p, err),
+                                 "detail": dict(info, n=n, variant=variant, p=p)})
+        if blk.nontrivial_block(out):
+            res["keys"].add(cc.key_of(src, variant, p, b))
 
 def history(st, rng, res, info):
     """fast-reset one-shot calls of varying size class on one context (C01 entry point + reuse)"""
@@ -114,7 +139,12 @@ def run_case(st, case):
         for j in range(case["count"]):
             kind = rng.choice(gens.KINDS)
             n = gens.size(rng, case["maxn"])
+            if case["maxn"] >= 70000 and j % 4 == 0:
+                kind = rng.choice(gens.FAR_KINDS)        # window-edge generators (need > 64 KB)
             src = gens.data(rng, kind, n)
+            if kind in gens.FAR_KINDS:
+                far(st, src, rng, res, {"bseed": case["bseed"], "j": j, "dkind": kind})
+                continue
             one(st, src, rng, res, {"bseed": case["bseed"], "j": j, "dkind": kind})
             if j % 6 == 0:
                 history(st, rng, res, {"bseed": case["bseed"], "j": j, "hist": 1})
